@@ -11,14 +11,14 @@ open OpenFGAVerif.Model.Paging
 
 
 theorem memReadPage_nat {α : Type} (items : List α) (ps k : Nat) (hk : k ≤ items.length) :
-    memReadPage items ps ((k : Int)) =
-      if ps ≠ 0 ∧ ps < (items.drop k).length then .page ((items.drop k).take ps) (some (((k + ps : Nat) : Int)))
+    memReadPage items ps (k : Int) =
+      if ps ≠ 0 ∧ ps < (items.drop k).length then .page ((items.drop k).take ps) (some ((k + ps : Nat) : Int))
       else .page (items.drop k) none := by
   unfold memReadPage
-  have h0 : ¬ ((k : Int) < 0) := by omega
+  have h0 : ¬ ((k : Int) < 0 ∨ (k : Int) > (items.length : Int)) := by omega
   have h1 : ((k : Int)).toNat = k := by omega
   have h2 : (k : Int) + (ps : Int) = ((k + ps : Nat) : Int) := by omega
-  simp only [h0, if_false, h1, hk, if_true, h2]
+  simp only [h0, if_false, h1, h2]
 
 theorem followMemRead_flatten {α : Type} (items : List α) (ps : Nat) (hps : 1 ≤ ps) :
     ∀ fuel k, k ≤ items.length → items.length - k < fuel →
